@@ -4,6 +4,7 @@ package main
 
 import (
 	"fmt"
+	"os"
 
 	"golang.org/x/tools/go/ssa"
 )
@@ -40,6 +41,56 @@ func init() {
 				b.MaxSymAlloc = 16
 			}
 			return []*Job{a, b}
+		},
+	})
+
+	register(&PropCheck{
+		ID:      "C08",
+		PkgDirs: []string{"internal/app"},
+		Level:   "other",
+		Explanation: "authAsSender, authAsReceiver, deriveAuthKey, computeAuthMac, read/writeAuthMessage and read/writeWithContext are executed symbolically with HMAC-SHA256 as an uninterpreted injective function (injectivity instantiated on every pair of applications of a path), the TLS exporter output an arbitrary 32-byte value per session and the peer's message 50 (or 49, 48) arbitrary bytes. The solver decides: the honest side accepts iff the message is exactly (version, expected role, n, H(key, version|role|n)) for its own key; a proof for another join code or another TLS session, a reflection of the side's own proof, any altered or truncated message is rejected; the responder writes nothing before it has verified. " +
+			"Order: for runICEQUICTransfer, dialExtraConns, (*snapshotReceiver).runTransfer and acceptExtraConns an SMT reachability query over the SSA control-flow graph (auth-success edges removed, sources = entry and loop headers) shows no path to SendManifestMultiStream / RecvManifestMultiStream / the dumb-transfer calls / NewMultiConn / the append of an extra connection.",
+		Rule:        "assertion sites: vAssert lines of H_C08_* plus one CFG obligation per function",
+		Assumptions: []string{"HMAC-SHA256 is injective/unforgeable (uninterpreted function with injectivity axioms); the TLS exporter value is unique per session", "one-shot goroutines of read/writeWithContext run to completion when spawned; the caller's context is not cancelled", "CFG obligation is per function and flow-insensitive in the connection value (any successful authenticateTransport edge counts)"},
+		Bounds:      func(tier string) string { return "messages of 48..50 arbitrary bytes, join codes of 8 arbitrary bytes, exporter values of 32 arbitrary bytes; CFGs of four functions" },
+		Jobs: func(tier string, prog *ssa.Program) []*Job {
+			var js []*Job
+			for _, h := range [][2]string{{"receiver", "the receiver accepts iff exact proof"}, {"sender", "the sender accepts iff exact proof"}, {"reflection", "reflected proof rejected"}, {"foreign", "proof for another code/session rejected"}, {"agree", "honest ends agree"}} {
+				j := hjp("internal/app", "C08."+h[0], "H_C08_"+h[0], h[1])
+				j.GoInline = func(string) bool { return true }
+				js = append(js, j)
+			}
+			return js
+		},
+		Extra: func(tier string, ld *Loaded, ev map[string]interface{}) []Finding {
+			app := "(*" + repoModule + "/internal/app."
+			tgt := []string{"transfer.SendManifestMultiStream", "transfer.RecvManifestMultiStream", "app.sendDumbData", "app.sendDumbDataMulti", "app.recvDumbDiscardMulti", "app.recvDumbDiscard", "transfer.NewMultiConn"}
+			specs := []cfgOrderSpec{
+				{Fn: app + "SnapshotSender).runICEQUICTransfer", AuthCall: "app.authenticateTransport", Targets: tgt},
+				{Fn: app + "snapshotReceiver).runTransfer", AuthCall: "app.authenticateTransport", Targets: tgt},
+				{Fn: app + "SnapshotSender).dialExtraConns", AuthCall: "app.authenticateTransport", Targets: tgt, AppendOf: "conns", LoopSources: true},
+				{Fn: app + "snapshotReceiver).acceptExtraConns", AuthCall: "app.authenticateTransport", Targets: tgt, AppendOf: "conns", LoopSources: true},
+			}
+			var fs []Finding
+			okN := 0
+			for _, sp := range specs {
+				ok, inc, wit := checkCFGOrder(ld.Prog, sp, ev)
+				switch {
+				case ok:
+					okN++
+				case inc != "":
+					fmt.Printf("INCONCLUSIVE property=C08 obligation=C08.order %s\n", inc)
+				default:
+					w := wit
+					fs = append(fs, Finding{Obligation: "C08.order", Kind: "cfg", Msg: sp.Fn, Replay: func(dir string) (bool, string) {
+						os.WriteFile(dir+"/witness.txt", []byte(w+"\n"), 0o644)
+						return true, w
+					}})
+				}
+			}
+			ev["extra_obligations"] = len(specs)
+			ev["extra_discharged"] = okN
+			return fs
 		},
 	})
 
